@@ -65,7 +65,8 @@ Definition apply_unk (p : merge_policy) (a b : option bytes) : option bytes :=
 Definition cleared_of (p : merge_policy) : list field := match p with MP_FirstWinsClearing cl => cl | _ => [] end.
 Definition kyd_rel (guarded : bool) (p : merge_policy) (a b c : alist) : Prop :=
   match p with
-  | MP_Extend | MP_ScalarUnion => c = al_extend a b
+  | MP_Extend => c = al_extend a b
+  | MP_VecOps ops => c = vec_merge ops a b
   | MP_Xpub => xpub_merge_with guarded a b = Val c
   | _ => c = a
   end.
@@ -165,7 +166,99 @@ Qed.
 
 (* ================================================================ nothing is lost (per map) *)
 Definition keeps_unk (p : merge_policy) : bool := match p with MP_FirstWins | MP_FirstWinsClearing _ | MP_Max | MP_OrFlags => true | _ => false end.
-Definition keeps_kyd (p : merge_policy) : bool := match p with MP_Extend | MP_ScalarUnion | MP_Xpub => true | _ => false end.
+Definition is_extend (o : vec_op) : bool := match o with VO_Extend => true | _ => false end.
+Definition keeps_kyd (p : merge_policy) : bool :=
+  match p with MP_Extend | MP_Xpub => true | MP_VecOps ops => existsb is_extend ops | _ => false end.
+
+(* ---- Vec fields: lookups and order after sort / dedup *)
+Lemma al_find_app k a b : al_find k (a ++ b) = match al_find k a with Some v => Some v | None => al_find k b end.
+Proof. induction a as [|[k' v'] a IH]; cbn [app al_find]; [reflexivity|]. destruct (bytes_eqb k k'); auto. Qed.
+Lemma al_find_ins k k1 v1 s : al_find k (al_ins k1 v1 s) = if bytes_eqb k k1 then Some v1 else al_find k s.
+Proof.
+  induction s as [|[k' v'] r IH]; cbn [al_ins al_find]; [reflexivity|].
+  destruct (bytes_cmp k1 k') eqn:C; cbn [al_find]; try reflexivity.
+  rewrite IH. destruct (bytes_eqb_spec k k') as [->|N]; [|reflexivity].
+  destruct (bytes_eqb_spec k' k1) as [->|N']; [|reflexivity]. rewrite bytes_cmp_refl in C. discriminate.
+Qed.
+Lemma al_find_sort k l : al_find k (al_sort l) = al_find k l.
+Proof. unfold al_sort. induction l as [|[k' v'] l IH]; cbn [fold_right fst snd al_find]; [reflexivity|]. now rewrite al_find_ins, IH. Qed.
+Lemma al_find_dd k : forall l p, bytes_eqb k p = false -> al_find k (al_dd p l) = al_find k l.
+Proof.
+  induction l as [|[k' v'] r IH]; intros p N; cbn [al_dd al_find]; [reflexivity|].
+  destruct (bytes_eqb_spec k' p) as [->|N'].
+  - rewrite N. apply IH, N.
+  - cbn [al_find]. destruct (bytes_eqb k k') eqn:E; [reflexivity|]. apply IH, E.
+Qed.
+Lemma al_find_dedup k l : al_find k (al_dedup l) = al_find k l.
+Proof. destruct l as [|[k' v'] r]; cbn [al_dedup al_find]; [reflexivity|]. destruct (bytes_eqb k k') eqn:E; [reflexivity|]. apply al_find_dd, E. Qed.
+
+Definition cmp_le (a b : bytes) : bool := match bytes_cmp a b with Gt => false | _ => true end.
+Lemma cmp_le_trans a b c : cmp_le a b = true -> cmp_le b c = true -> cmp_le a c = true.
+Proof.
+  unfold cmp_le. destruct (bytes_cmp a b) eqn:AB; try discriminate; destruct (bytes_cmp b c) eqn:BC; try discriminate; intros _ _.
+  - apply bytes_cmp_eq in AB, BC. subst. now rewrite bytes_cmp_refl.
+  - apply bytes_cmp_eq in AB. subst. now rewrite BC.
+  - apply bytes_cmp_eq in BC. subst. now rewrite AB.
+  - now rewrite (bytes_cmp_trans_lt _ _ _ AB BC).
+Qed.
+Fixpoint al_lbe (k : bytes) (l : alist) : bool := match l with [] => true | (k', _) :: r => cmp_le k k' && al_lbe k r end.
+Fixpoint al_sle (l : alist) : bool := match l with [] => true | (k, _) :: r => al_lbe k r && al_sle r end.     (* sorted, repeats allowed *)
+Lemma al_lbe_trans k k' l : cmp_le k k' = true -> al_lbe k' l = true -> al_lbe k l = true.
+Proof.
+  induction l as [|[k2 v2] r IH]; cbn [al_lbe]; [reflexivity|]. intros L H. apply andb_true_iff in H as [H1 H2].
+  now rewrite (cmp_le_trans _ _ _ L H1), IH.
+Qed.
+Lemma al_lbe_ins p k v s : cmp_le p k = true -> al_lbe p s = true -> al_lbe p (al_ins k v s) = true.
+Proof.
+  induction s as [|[k' v'] r IH]; cbn [al_ins al_lbe]; intros L H; [now rewrite L|].
+  apply andb_true_iff in H as [H1 H2]. destruct (bytes_cmp k k'); cbn [al_lbe]; rewrite ?L, ?H1, ?H2, ?IH; auto.
+Qed.
+Lemma al_sle_ins k v s : al_sle s = true -> al_sle (al_ins k v s) = true.
+Proof.
+  induction s as [|[k' v'] r IH]; cbn [al_ins al_sle]; [reflexivity|]. intros H. apply andb_true_iff in H as [H1 H2].
+  destruct (bytes_cmp k k') eqn:C; cbn [al_sle al_lbe].
+  - assert (cmp_le k k' = true) as L by (unfold cmp_le; now rewrite C). rewrite L, H1, H2, (al_lbe_trans _ _ _ L H1). reflexivity.
+  - assert (cmp_le k k' = true) as L by (unfold cmp_le; now rewrite C). rewrite L, H1, H2, (al_lbe_trans _ _ _ L H1). reflexivity.
+  - rewrite (IH H2), andb_true_r. apply al_lbe_ins; [|assumption]. unfold cmp_le. rewrite bytes_cmp_antisym, C. reflexivity.
+Qed.
+Lemma al_sle_sort l : al_sle (al_sort l) = true.
+Proof. unfold al_sort. induction l as [|[k v] l IH]; cbn [fold_right fst snd]; [reflexivity|]. now apply al_sle_ins. Qed.
+Lemma al_dd_sorted : forall l p, al_lbe p l = true -> al_sle l = true -> al_lb p (al_dd p l) = true /\ al_sorted (al_dd p l) = true.
+Proof.
+  induction l as [|[k v] r IH]; intros p L S; cbn [al_dd]; [split; reflexivity|].
+  cbn [al_lbe al_sle] in L, S. apply andb_true_iff in L as [L1 L2]. apply andb_true_iff in S as [S1 S2].
+  destruct (bytes_eqb_spec k p) as [->|N].
+  - apply IH; assumption.
+  - destruct (IH k S1 S2) as [I1 I2]. cbn [al_lb al_sorted].
+    assert (bytes_cmp p k = Lt) as LT.
+    { unfold cmp_le in L1. destruct (bytes_cmp p k) eqn:C; try discriminate; [|reflexivity]. apply bytes_cmp_eq in C. congruence. }
+    rewrite LT, I1, I2. split; [|reflexivity]. eapply al_lb_trans; eauto.
+Qed.
+Lemma al_sorted_dedup l : al_sle l = true -> al_sorted (al_dedup l) = true.
+Proof.
+  destruct l as [|[k v] r]; cbn [al_dedup al_sle al_sorted]; [reflexivity|]. intros S. apply andb_true_iff in S as [S1 S2].
+  destruct (al_dd_sorted r k S1 S2) as [I1 I2]. now rewrite I1, I2.
+Qed.
+
+(* the statement sequence the source has today *)
+Definition canonical_vec_ops : list vec_op := [VO_Extend; VO_Sort; VO_Dedup].
+Lemma vec_merge_canonical a b : vec_merge canonical_vec_ops a b = al_dedup (al_sort (a ++ b)). Proof. reflexivity. Qed.
+Lemma vec_merge_sorted a b : al_sorted (vec_merge canonical_vec_ops a b) = true.
+Proof. rewrite vec_merge_canonical. apply al_sorted_dedup, al_sle_sort. Qed.
+Lemma vec_merge_find k a b : al_find k (vec_merge canonical_vec_ops a b) = match al_find k a with Some v => Some v | None => al_find k b end.
+Proof. now rewrite vec_merge_canonical, al_find_dedup, al_find_sort, al_find_app. Qed.
+(* membership after any statement sequence: nothing is lost as long as `extend` is among the statements *)
+Lemma al_mem_app k a b : al_mem k (a ++ b) = al_mem k a || al_mem k b.
+Proof. unfold al_mem. rewrite al_find_app. destruct (al_find k a), (al_find k b); reflexivity. Qed.
+Lemma vec_merge_mem k o : forall ops v, al_mem k (fold_left (vec_step o) ops v) = al_mem k v || (existsb is_extend ops && al_mem k o).
+Proof.
+  induction ops as [|op ops IH]; intros v; cbn [fold_left existsb]; [now rewrite orb_false_r|].
+  rewrite IH. destruct op; cbn [vec_step is_extend orb andb].
+  - rewrite al_mem_app. destruct (al_mem k v), (al_mem k o), (existsb is_extend ops); reflexivity.
+  - unfold al_mem at 1. rewrite al_find_sort. reflexivity.
+  - unfold al_mem at 1. rewrite al_find_dedup. reflexivity.
+Qed.
+
 
 Lemma apply_unk_keeps p a b : keeps_unk p = true -> a <> None \/ b <> None -> apply_unk p a b <> None.
 Proof. destruct p, a, b; cbn; intros K H; try discriminate; try (destruct H; congruence); try (destruct (_ <? _); discriminate). Qed.
@@ -190,9 +283,9 @@ Proof.
 Qed.
 Lemma kyd_rel_keeps guarded p a b c k : keeps_kyd p = true -> kyd_rel guarded p a b c -> al_mem k a || al_mem k b = true -> al_mem k c = true.
 Proof.
-  destruct p; cbn [keeps_kyd kyd_rel]; try discriminate; intros _ R M.
+  destruct p; cbn [keeps_kyd kyd_rel]; try discriminate; intros H R M.
   - subst c. now rewrite al_mem_extend.
-  - subst c. now rewrite al_mem_extend.
+  - subst c. unfold vec_merge. rewrite vec_merge_mem. rewrite H. cbn [andb]. exact M.
   - eapply xpub_merge_mem; eauto.
 Qed.
 
@@ -420,10 +513,29 @@ Record pair_ok (tbl : list (field * merge_policy)) (a b : pmap) : Prop := {
   po_quiet_ab : quiet tbl a b; po_quiet_ba : quiet tbl b a }.
 Definition map_equiv (c c' : pmap) : Prop := forall f, unk c f = unk c' f /\ kyd c f = kyd c' f.
 
-Theorem merge_map_commutes guarded tbl a b : nodup_fields tbl = true -> pair_ok tbl a b ->
+Fixpoint vec_ops_eqb (x y : list vec_op) : bool :=
+  match x, y with
+  | [], [] => true
+  | VO_Extend :: x', VO_Extend :: y' | VO_Sort :: x', VO_Sort :: y' | VO_Dedup :: x', VO_Dedup :: y' => vec_ops_eqb x' y'
+  | _, _ => false end.
+Lemma vec_ops_eqb_eq x : forall y, vec_ops_eqb x y = true -> x = y.
+Proof. induction x as [|[] x IH]; intros [|[] y]; cbn; try discriminate; auto; intros H; f_equal; auto. Qed.
+(* every Vec field is merged by extend; sort; dedup, in this order *)
+Definition vecops_canonical (tbl : list (field * merge_policy)) : bool :=
+  forallb (fun s => match snd s with MP_VecOps ops => vec_ops_eqb ops canonical_vec_ops | _ => true end) tbl.
+Lemma policy_of_In tbl f p : policy_of tbl f = p -> p <> MP_NotMerged -> In (f, p) tbl.
+Proof.
+  induction tbl as [|[f' p'] r IH]; intros H N.
+  - unfold policy_of in H. cbn in H. congruence.
+  - destruct (bytes_eqb f f') eqn:E.
+    + apply bytes_eqb_eq in E. subst f'. rewrite policy_of_cons_same in H. subst. now left.
+    + rewrite (policy_of_cons_other _ _ _ _ E) in H. right. auto.
+Qed.
+
+Theorem merge_map_commutes guarded tbl a b : nodup_fields tbl = true -> vecops_canonical tbl = true -> pair_ok tbl a b ->
   exists c c', run_steps guarded tbl a b = Val c /\ run_steps guarded tbl b a = Val c' /\ map_equiv c c'.
 Proof.
-  intros ND [WA WB [CU CK] AG QA QB].
+  intros ND VC [WA WB [CU CK] AG QA QB].
   destruct (run_steps_total guarded tbl a b ND) as [c HC].
   { intros f I. destruct (xpub_merge_compat guarded (kyd b f) (kyd a f) (WB f)) as [l [X _]]; [apply CK|eauto]. }
   destruct (run_steps_total guarded tbl b a ND) as [c' HC'].
@@ -439,8 +551,9 @@ Proof.
     destruct (policy_of tbl f) eqn:P; cbn [kyd_rel] in R, R'; try (rewrite R, R'; apply AG; now rewrite P).
     + rewrite R, R'. apply al_sorted_ext; [apply al_sorted_extend, WA|apply al_sorted_extend, WB|]. intros q.
       rewrite !al_find_extend_sorted by (apply WA || apply WB). apply SYM.
-    + rewrite R, R'. apply al_sorted_ext; [apply al_sorted_extend, WA|apply al_sorted_extend, WB|]. intros q.
-      rewrite !al_find_extend_sorted by (apply WA || apply WB). apply SYM.
+    + assert (ops = canonical_vec_ops) as ->.
+      { apply policy_of_In in P; [|discriminate]. unfold vecops_canonical in VC. rewrite forallb_forall in VC. specialize (VC _ P). now apply vec_ops_eqb_eq. }
+      rewrite R, R'. apply al_sorted_ext; try apply vec_merge_sorted. intros q. rewrite !vec_merge_find. symmetry. apply SYM.
     + destruct (xpub_merge_compat guarded (kyd b f) (kyd a f) (WB f)) as [l [X Y]]; [apply CK|].
       destruct (xpub_merge_compat guarded (kyd a f) (kyd b f) (WA f)) as [l' [X' Y']]. { intros k x y A B. symmetry. eapply CK; eauto. }
       rewrite R in X. injection X as <-. rewrite R' in X'. injection X' as <-.
@@ -449,6 +562,7 @@ Proof.
 Qed.
 
 (* ---- whole PSETs *)
+Definition tables_canonical (T : tables) : bool := vecops_canonical (t_global T) && vecops_canonical (t_input T) && vecops_canonical (t_output T).
 Definition pset_equiv (c c' : pset) : Prop :=
   map_equiv (pglobal c) (pglobal c') /\ Forall2 map_equiv (pinputs c) (pinputs c') /\ Forall2 map_equiv (poutputs c) (poutputs c').
 Record pset_pair_ok (T : tables) (a b : pset) : Prop := {
@@ -468,14 +582,15 @@ Qed.
 
 Section CommutesWithUid.
   Context {id : Type} (id_eqb : id -> id -> bool) (uid : pset -> outcome id).
-  Theorem merge_commutes T a b x y : tables_ok T = true ->
+  Theorem merge_commutes T a b x y : tables_ok T = true -> tables_canonical T = true ->
     uid a = Val x -> uid b = Val y -> id_eqb x y = true -> id_eqb y x = true -> pset_pair_ok T a b ->
     exists c c', merge_with id_eqb uid T a b = Val c /\ merge_with id_eqb uid T b a = Val c' /\ pset_equiv c c'.
   Proof.
-    intros OK A B E E' [G I O]. unfold tables_ok in OK. apply andb_true_iff in OK as [OK O3]. apply andb_true_iff in OK as [O1 O2].
-    destruct (merge_map_commutes (t_guarded T) _ _ _ O1 G) as [g [g' [Hg [Hg' Eg]]]].
-    destruct (zip_merge_commutes (merge_map_with (t_guarded T) (t_input T)) _ (fun x y => merge_map_commutes (t_guarded T) _ x y O2) _ _ I) as [ci [ci' [Hi [Hi' Ei]]]].
-    destruct (zip_merge_commutes (merge_map_with (t_guarded T) (t_output T)) _ (fun x y => merge_map_commutes (t_guarded T) _ x y O3) _ _ O) as [co [co' [Ho [Ho' Eo]]]].
+    intros OK CA A B E E' [G I O]. unfold tables_ok in OK. apply andb_true_iff in OK as [OK O3]. apply andb_true_iff in OK as [O1 O2].
+    unfold tables_canonical in CA. apply andb_true_iff in CA as [CA C3]. apply andb_true_iff in CA as [C1 C2].
+    destruct (merge_map_commutes (t_guarded T) _ _ _ O1 C1 G) as [g [g' [Hg [Hg' Eg]]]].
+    destruct (zip_merge_commutes (merge_map_with (t_guarded T) (t_input T)) _ (fun x y => merge_map_commutes (t_guarded T) _ x y O2 C2) _ _ I) as [ci [ci' [Hi [Hi' Ei]]]].
+    destruct (zip_merge_commutes (merge_map_with (t_guarded T) (t_output T)) _ (fun x y => merge_map_commutes (t_guarded T) _ x y O3 C3) _ _ O) as [co [co' [Ho [Ho' Eo]]]].
     exists (mkpset g ci co), (mkpset g' ci' co'). unfold merge_with, merge_maps_with, merge_map_with in *. rewrite A, B. cbn [uid_res_eqb].
     rewrite E, E', Hg, Hg', Hi, Hi', Ho, Ho'. cbn [obind]. split; [reflexivity|]. split; [reflexivity|]. split; [exact Eg|]. split; [exact Ei|exact Eo].
   Qed.
@@ -504,4 +619,19 @@ Proof.
     + exfalso. assert (existsb (fun t => bytes_eqb f' (fst t)) r = true) as Y; [|congruence].
       apply existsb_exists. exists (f', p). split; [assumption|]. cbn. apply bytes_eqb_refl.
     + rewrite policy_of_cons_other by (now apply bytes_eqb_neq). auto.
+Qed.
+
+(* ================================================================ the scalar list (Global::scalars, a Vec<Tweak>) *)
+Definition vals_nil (l : alist) : Prop := forall k v, al_find k l = Some v -> v = [].       (* a list of bare keys *)
+Theorem scalars_merge ops a b : vec_ops_eqb ops canonical_vec_ops = true -> vals_nil a -> vals_nil b ->
+  let r := vec_merge ops a b in
+  al_sorted r = true /\                                              (* strictly increasing: sorted, no scalar twice *)
+  (forall k, al_mem k r = al_mem k a || al_mem k b) /\                (* exactly the union: nothing lost, nothing invented *)
+  r = vec_merge ops b a.                                              (* the same list whichever operand is merged into which *)
+Proof.
+  intros E NA NB. apply vec_ops_eqb_eq in E. subst ops. cbn zeta. split; [apply vec_merge_sorted|]. split.
+  - intros k. unfold vec_merge. rewrite vec_merge_mem. reflexivity.
+  - apply al_sorted_ext; try apply vec_merge_sorted. intros q. rewrite !vec_merge_find.
+    destruct (al_find q a) as [x|] eqn:A, (al_find q b) as [y|] eqn:B; try reflexivity.
+    now rewrite (NA _ _ A), (NB _ _ B).
 Qed.
